@@ -149,6 +149,14 @@ def default_cfg():
 def gen_cfg(rng, triples, inst_prop=RDF_TYPE, presentation=True, allow_or=False, allow_cap=True, allow_ignore=True):
     cfg = default_cfg()
     cfg['inst_prop'] = inst_prop
+    # the caller may write the instantiation property as <iri>, as the plain IRI or (when the namespace has a prefix) as prefix:name
+    r_sp = rng.random()
+    if r_sp < 0.15:
+        cfg['inst_prop_spelled'] = '<%s>' % inst_prop
+    elif r_sp < 0.3:
+        for ns_, pre_ in DEFAULT_NS.items():
+            if inst_prop.startswith(ns_) and '/' not in inst_prop[len(ns_):] and '#' not in inst_prop[len(ns_):]:
+                cfg['inst_prop_spelled'] = pre_ + ':' + inst_prop[len(ns_):]
     for k in BOOL_SWITCHES:
         cfg[k] = rng.random() < (0.5 if k not in ('disable_comments',) else 0.15)
     cfg['remove_empty'] = rng.random() < 0.7
